@@ -8,9 +8,9 @@ CONSTANTS
   MaxDepth = 3
   RichAt = 0
   Modes = {"k", "i", "u"}
-  FkModes = {0, 3}
-  FkCols <- FkColsWide
+  FkModes = {0}
+  FkCols <- FkColsAB
   Seeds <- SeedsRich
-  Wide = TRUE
+  Wide = FALSE
 INVARIANTS InvHasKey InvIdxCols InvFkValid InvLinks InvBestKey InvData InvViews
 CHECK_DEADLOCK FALSE
